@@ -870,6 +870,7 @@ def _fx(ex, *kids):
 NORMAL = Model(scale=1)
 EXACT = Model(scale=0)
 EXACT_WIDE = Model(scale=0, widen=4)
+EXACT_WIDE_ALL = Model(scale=0, widen=4, widen_integral=True)   # exact arithmetic, every float-typed constant (a folded constant is always a float) within 4u
 NORMAL_WIDE = Model(scale=1, widen=4, widen_integral=True)   # contains the value of an expression whose folded constants are off by <= 4u, under any conforming float evaluation
 
 
